@@ -35,7 +35,8 @@ def lit(t, r):
     if t == INT:
         return str(r.choice([0, 1, 5, 10, 12, 42, 100, -3]))
     if t == HEX:
-        return r.choice(["0x0", "0x1", "0x1F", "0xff", "0x10", "0x3"])
+        # incl. spellings without the 0x prefix (digits only: parser v2 does not take `1F` as a value), legal for hex options
+        return r.choice(["0x0", "0x1", "0x1F", "0xff", "0x10", "0x3", "10", "20"])
     if t == FLOAT:
         return r.choice(["0.5", "1.5", "10.0", "3.25", "5", "1e1", "0.50"])  # incl. non-canonical spellings
     if t == STRING:
